@@ -2,6 +2,8 @@ import BigDec.Model.Inverse
 import BigDec.Proofs.Arith
 import BigDec.Proofs.InvAccuracy
 import BigDec.Proofs.InvTerm
+import BigDec.Proofs.InvGuess
+import BigDec.Props.C14
 import BigDec.Props.C06
 import BigDec.Proofs.DisplayLen
 import BigDec.Proofs.EstCode
@@ -415,5 +417,143 @@ theorem C12_inverse_total {est : Nat → Nat} (hest : EstOK est) (n : Nat) (scal
     omega
   have hdig : R.digits > p := by unfold Dec.digits; omega
   rw [if_pos hdig]
+
+/-- the two formalisations of a non-negative finite double agree: `floatValQ` (C14, from-float) and
+    `F64.valQ` (C14, to_f64 / estimates) -/
+theorem floatValQ_eq_valQ (bits : Nat) (h : bits < F64.inf) : floatValQ 11 52 bits = F64.valQ bits := by
+  unfold F64.inf at h
+  have hdm := Nat.div_add_mod bits (2 ^ 52)
+  have hF : bits % 2 ^ 52 < 2 ^ 52 := Nat.mod_lt _ (by positivity)
+  have hE : bits / 2 ^ 52 < 2047 := by rw [Nat.div_lt_iff_lt_mul (by positivity)]; omega
+  have hs : bits / 2 ^ (52 + 11) % 2 = 0 := by
+    rw [Nat.div_eq_of_lt (by omega)]
+  have hexp : bits / 2 ^ 52 % 2 ^ 11 = bits / 2 ^ 52 := Nat.mod_eq_of_lt (by omega)
+  have hbias : ((2 ^ (11 - 1) - 1 : Nat) : Int) = 1023 := by norm_num
+  unfold floatValQ
+  simp only [hs, hexp, hbias]
+  have hne : ¬ ((0 : Nat) = 1) := by omega
+  rw [if_neg hne, one_mul]
+  by_cases he : bits / 2 ^ 52 = 0
+  · rw [if_pos he]
+    have hbF : bits % 2 ^ 52 = bits := by omega
+    rw [hbF, F64.val_subnormal bits (by omega)]
+    rw [show (1 : Int) - 1023 - ((52 : Nat) : Int) = -((1074 : Nat) : Int) by norm_num, zpow_neg, zpow_natCast, div_eq_mul_inv]
+  · rw [if_neg he]
+    have hv := F64.val_normal (bits / 2 ^ 52) (bits % 2 ^ 52) (by omega) (by omega) hF
+    have hb : bits / 2 ^ 52 * 2 ^ 52 + bits % 2 ^ 52 = bits := by rw [Nat.mul_comm]; exact hdm
+    rw [hb] at hv
+    rw [hv]
+    have e1 : (((bits / 2 ^ 52 : Nat) : Int)) - 1023 - ((52 : Nat) : Int) = ((bits / 2 ^ 52 : Nat) : Int) - 1075 := by push_cast; ring
+    rw [e1, one_mul, Nat.add_comm]
+
+/-- **the premise holds for the code's own guess** (main path): for every magnitude `n` of at most
+    1074 bits (324 digits) the model of `make_inv_guess` - `LN_2 * exp2(-bits)` in f64, converted
+    exactly - returns a positive decimal within 94% of `1/x`; the driver compares that model with the
+    guess the real code hands over on every such input -/
+theorem C12_guess_premise (n : Nat) (scale : Int) (hn : 0 < n) (hb : n.log2 + 1 ≤ 1074) :
+    ∃ g, invGuessMain (n.log2 + 1) scale = some g ∧ 0 < g.value ∧
+      |1 - (Dec.mk n scale).value * g.value| ≤ 94 / 100 := by
+  obtain ⟨hne, hlo, hhi⟩ := invGuessF64_bounds (n.log2 + 1) hb
+  have hvL1 : (693 / 1000 : ℚ) ≤ F64.valQ ln2Bits := by rw [valQ_ln2]; norm_num
+  have hvL2 : F64.valQ ln2Bits ≤ 6932 / 10000 := by rw [valQ_ln2]; norm_num
+  have h2b : (0 : ℚ) < (2 : ℚ) ^ (-((n.log2 + 1 : Nat) : Int)) := zpow_pos (by norm_num) _
+  have hvpos : 0 < F64.valQ (invGuessF64 (n.log2 + 1)) := by
+    have : 0 < F64.valQ ln2Bits * (2 : ℚ) ^ (-((n.log2 + 1 : Nat) : Int)) := mul_pos (by linarith) h2b
+    linarith
+  have hne0 : invGuessF64 (n.log2 + 1) ≠ 0 := by
+    intro h0; rw [h0, F64.valQ_zero] at hvpos; exact lt_irrefl _ hvpos
+  -- the bit pattern is finite and non-negative
+  have hlt : invGuessF64 (n.log2 + 1) < F64.inf := by
+    have hmul : invGuessF64 (n.log2 + 1) = F64.rne (6243314768165359 * (F64.val (exp2NegBits (n.log2 + 1))).1) (2 ^ 53 * (F64.val (exp2NegBits (n.log2 + 1))).2) := by
+      have hlne : (ln2Bits == F64.inf) = false := by decide
+      have hxne' : (exp2NegBits (n.log2 + 1) == F64.inf) = false := by simpa using exp2Neg_ne_inf (n.log2 + 1)
+      unfold invGuessF64 F64.mul
+      simp only [hlne, hxne', Bool.or_self, Bool.false_eq_true, if_false, val_ln2]
+    have hcpos : 0 < (F64.val (exp2NegBits (n.log2 + 1))).1 := by
+      by_contra h0
+      have h0' : (F64.val (exp2NegBits (n.log2 + 1))).1 = 0 := by omega
+      have : F64.valQ (exp2NegBits (n.log2 + 1)) = 0 := by unfold F64.valQ; rw [h0']; simp
+      rw [valQ_exp2Neg _ hb] at this; linarith
+    rw [hmul] at hne ⊢
+    exact rne_lt_inf _ _ (Nat.mul_pos (by norm_num) hcpos) (Nat.mul_pos (by positivity) (F64.val_den_pos _)) hne
+  have hfin : (invGuessF64 (n.log2 + 1) / 2 ^ 52) % 2 ^ 11 ≠ 2 ^ 11 - 1 := by
+    unfold F64.inf at hlt
+    have h1 : invGuessF64 (n.log2 + 1) / 2 ^ 52 < 2047 := by
+      rw [Nat.div_lt_iff_lt_mul (by positivity)]; omega
+    rw [Nat.mod_eq_of_lt (by omega)]; omega
+  obtain ⟨d, hd1, hd2⟩ := C14_ofF64_exact _ hfin
+  rw [floatValQ_eq_valQ _ hlt] at hd2
+  refine ⟨⟨d.int, d.scale - scale⟩, ?_, ?_, ?_⟩
+  · unfold invGuessMain
+    rw [if_pos ⟨hb, hne0, hne⟩, hd1]; rfl
+  · have : (Dec.mk d.int (d.scale - scale)).value = d.value * (10 : ℚ) ^ scale := by
+      unfold Dec.value
+      simp only
+      rw [show -(d.scale - scale) = -d.scale + scale by ring, zpow_add₀ (by norm_num : (10 : ℚ) ≠ 0)]; ring
+    rw [this, hd2]
+    exact mul_pos hvpos (zpow_pos (by norm_num) _)
+  · have hg : (Dec.mk d.int (d.scale - scale)).value = d.value * (10 : ℚ) ^ scale := by
+      unfold Dec.value
+      simp only
+      rw [show -(d.scale - scale) = -d.scale + scale by ring, zpow_add₀ (by norm_num : (10 : ℚ) ≠ 0)]; ring
+    have hx : (Dec.mk n scale).value * (Dec.mk d.int (d.scale - scale)).value = (n : ℚ) * F64.valQ (invGuessF64 (n.log2 + 1)) := by
+      rw [hg, hd2]
+      unfold Dec.value
+      simp only
+      have : (10 : ℚ) ^ (-scale) * (10 : ℚ) ^ scale = 1 := by
+        rw [← zpow_add₀ (by norm_num : (10 : ℚ) ≠ 0)]; simp
+      push_cast
+      calc (n : ℚ) * (10 : ℚ) ^ (-scale) * (F64.valQ (invGuessF64 (n.log2 + 1)) * (10 : ℚ) ^ scale)
+          = (n : ℚ) * F64.valQ (invGuessF64 (n.log2 + 1)) * ((10 : ℚ) ^ (-scale) * (10 : ℚ) ^ scale) := by ring
+        _ = (n : ℚ) * F64.valQ (invGuessF64 (n.log2 + 1)) := by rw [this, mul_one]
+    rw [hx]
+    -- 2^(b-1) ≤ n < 2^b
+    obtain ⟨l1, l2⟩ := F64.log2_bounds n hn
+    have hn1 : (2 : ℚ) ^ (n.log2 : Int) ≤ (n : ℚ) := by rw [zpow_natCast]; exact_mod_cast l1
+    have hn2 : (n : ℚ) < (2 : ℚ) ^ ((n.log2 + 1 : Nat) : Int) := by rw [zpow_natCast]; exact_mod_cast l2
+    have hpow1 : (2 : ℚ) ^ (n.log2 : Int) * (2 : ℚ) ^ (-((n.log2 + 1 : Nat) : Int)) = 1 / 2 := by
+      rw [← zpow_add₀ (by norm_num : (2 : ℚ) ≠ 0)]
+      have : (n.log2 : Int) + -((n.log2 + 1 : Nat) : Int) = -1 := by push_cast; ring
+      rw [this]; norm_num
+    have hpow2 : (2 : ℚ) ^ ((n.log2 + 1 : Nat) : Int) * (2 : ℚ) ^ (-((n.log2 + 1 : Nat) : Int)) = 1 := by
+      rw [← zpow_add₀ (by norm_num : (2 : ℚ) ≠ 0)]; simp
+    generalize F64.valQ (invGuessF64 (n.log2 + 1)) = v at hlo hhi hvpos ⊢
+    generalize (2 : ℚ) ^ (-((n.log2 + 1 : Nat) : Int)) = w at hlo hhi h2b hpow1 hpow2
+    generalize (2 : ℚ) ^ (n.log2 : Int) = A at hn1 hpow1
+    generalize (2 : ℚ) ^ ((n.log2 + 1 : Nat) : Int) = B at hn2 hpow2
+    generalize F64.valQ ln2Bits = L at hlo hhi hvL1 hvL2
+    have hnpos : (0 : ℚ) < (n : ℚ) := by exact_mod_cast hn
+    -- n v ≥ A · 0.27 L w = 0.135 L ≥ 0.0935 ;  n v < B · 1.73 L w = 1.73 L ≤ 1.2
+    have hlow : 93 / 1000 ≤ (n : ℚ) * v := by
+      have h1 : A * (27 / 100 * (L * w)) ≤ (n : ℚ) * v := by
+        have hLw : 0 ≤ 27 / 100 * (L * w) := by positivity
+        calc A * (27 / 100 * (L * w)) ≤ (n : ℚ) * (27 / 100 * (L * w)) := mul_le_mul_of_nonneg_right hn1 hLw
+          _ ≤ (n : ℚ) * v := mul_le_mul_of_nonneg_left hlo hnpos.le
+      have h2 : A * (27 / 100 * (L * w)) = 27 / 100 * L * (A * w) := by ring
+      rw [h2, hpow1] at h1
+      nlinarith
+    have hup : (n : ℚ) * v ≤ 12 / 10 := by
+      have h1 : (n : ℚ) * v ≤ B * (173 / 100 * (L * w)) := by
+        have hLw : 0 ≤ 173 / 100 * (L * w) := by positivity
+        calc (n : ℚ) * v ≤ (n : ℚ) * (173 / 100 * (L * w)) := mul_le_mul_of_nonneg_left hhi hnpos.le
+          _ ≤ B * (173 / 100 * (L * w)) := mul_le_mul_of_nonneg_right hn2.le hLw
+      have h2 : B * (173 / 100 * (L * w)) = 173 / 100 * L * (B * w) := by ring
+      rw [h2, hpow2] at h1
+      nlinarith
+    rw [abs_le]; constructor <;> linarith
+
+/-- **`inverse` without a premise about the guess** (magnitudes of at most 1074 bits): with the
+    modelled guess, the iteration terminates within `p + 10` steps and whatever is returned is within
+    strictly less than one unit of its last digit of `1/x` -/
+theorem C12_inverse_total_main_path {est : Nat → Nat} (hest : EstOK est) (n : Nat) (scale : Int) (p : Nat) (m : Mode)
+    (fuel : Nat) (hn : 0 < n) (hb : n.log2 + 1 ≤ 1074) (hp : 1 ≤ p) (hfuel : p + 10 ≤ fuel) :
+    ∃ g R, invGuessMain (n.log2 + 1) scale = some g ∧
+      invLoop est ⟨n, scale⟩ p fuel Dec.zero (invNext ⟨n, scale⟩ g) = some R ∧
+      implInverse est n scale p m g fuel = R.withPrecisionRound p m ∧
+      ∀ res, implInverse est n scale p m g fuel = some res →
+        |res.value - 1 / (Dec.mk n scale).value| < (10 : ℚ) ^ (-res.scale) := by
+  obtain ⟨g, hg1, hg2, hg3⟩ := C12_guess_premise n scale hn hb
+  obtain ⟨R, hR1, hR2, hR3⟩ := C12_inverse_total hest n scale p m g fuel hn hp hg2 hg3 hfuel
+  exact ⟨g, R, hg1, hR1, hR2, hR3⟩
 
 end BigDec
